@@ -137,8 +137,6 @@ pub trait TypeOps {
     /// A `SchemaWriter` created on a writer that has already advanced by `r` bytes (a preamble
     /// of 0xA5), then the value written as "ROOT": rows and the whole sink content.
     fn inner_schema(&self, i: usize, r: usize) -> Out<SchemaOut>;
-    /// `serialize_with_schema` of value i scaled by `k` (rows and bytes only).
-    fn ser_schema_scaled(&self, i: usize, k: usize) -> Out<SchemaOut>;
     /// `store` value i to a file.
     fn store(&self, i: usize, path: &str) -> Out<()>;
     /// `store` value i scaled by `k` (see `Dom::scale`) to a file.
@@ -315,16 +313,6 @@ where
     }
     fn full_script(&self, rd: &mut ScriptReader) -> Out<Val> {
         out3(guarded(|| T::deserialize_full(rd).map(|x| x.to_val()).map_err(|e| err_kind(&e))))
-    }
-    fn ser_schema_scaled(&self, i: usize, k: usize) -> Out<SchemaOut> {
-        let vals = self.vals.borrow();
-        let v = vals[i].scale(k);
-        out3(guarded(|| {
-            let mut buf: Vec<u8> = Vec::new();
-            let schema = v.serialize_with_schema(&mut buf).map_err(|e| format!("{:?}", e))?;
-            let rows = schema.0.iter().map(|r| (r.field.clone(), r.offset, r.size, r.align)).collect();
-            Ok(SchemaOut { bytes: buf, rows, csv: Ok(0), debug: Ok(0) })
-        }))
     }
     fn inner_schema(&self, i: usize, r: usize) -> Out<SchemaOut> {
         let vals = self.vals.borrow();
